@@ -412,7 +412,10 @@ func readHeader(in *io.Reader) (manifest []byte, mac []byte, err error) {
 		*in = io.MultiReader(bytes.NewReader(extraBytes), *in)
 	}
 
-	return manifest, mac, nil
+	// The manifest and MAC are slices of the pooled buffer, which is given back
+	// when this function returns: return copies, as another stream may get (and
+	// overwrite) that buffer while the caller is still using them
+	return bytes.Clone(manifest), bytes.Clone(mac), nil
 }
 
 func writeOrClosePipe(w *io.PipeWriter, b []byte) bool {
